@@ -117,6 +117,59 @@ def solve_text(text, timeout_s=10, strings=None, solvers=None):
     return result
 
 
+def discharge_texts(texts, timeout_s=10, jobs=None):
+    """Same as discharge() for ready-made SMT-LIB texts."""
+    results = [None] * len(texts)
+    quick = max(2, min(4, timeout_s // 2))
+    with cf.ThreadPoolExecutor(max_workers=jobs or max(2, NPROC - 2)) as ex:
+        futs = {ex.submit(solve_text, t, quick, None, ["z3new"]): i for i, t in enumerate(texts)}
+        for f in cf.as_completed(futs):
+            results[futs[f]] = f.result()
+    rest = [i for i, r in enumerate(results) if r["status"] not in ("sat", "unsat")]
+    if rest:
+        with cf.ThreadPoolExecutor(max_workers=max(2, (jobs or NPROC) // 3)) as ex:
+            futs = {ex.submit(solve_text, texts[i], timeout_s): i for i in rest}
+            for f in cf.as_completed(futs):
+                i = futs[f]
+                r = f.result()
+                r["time"] = round(r["time"] + results[i]["time"], 3)
+                results[i] = r
+    return results
+
+
+def probe_texts(probes, timeout_s=3, jobs=None):
+    """probes: dicts {name, pc, base} of SMT-LIB texts -> list of vacuous names (see probe())."""
+    out = {}
+    with cf.ThreadPoolExecutor(max_workers=jobs or max(2, NPROC - 2)) as ex:
+        futs = {ex.submit(solve_text, p["pc"], timeout_s, None, ["z3new"]): k for k, p in enumerate(probes)}
+        for f in cf.as_completed(futs):
+            out[(futs[f], "pc")] = f.result()["status"]
+    need = [k for k, p in enumerate(probes) if out[(k, "pc")] == "unsat" and p.get("base")]
+    with cf.ThreadPoolExecutor(max_workers=jobs or max(2, NPROC - 2)) as ex:
+        futs = {ex.submit(solve_text, probes[k]["base"], timeout_s, None, ["z3new"]): k for k in need}
+        for f in cf.as_completed(futs):
+            out[(futs[f], "base")] = f.result()["status"]
+    vacuous, exits = [], {}
+    for k, p in enumerate(probes):
+        name, st = p["name"], out[(k, "pc")]
+        if "normal exit reachable" in name:
+            fn = name.split("::")[0]
+            exits[fn] = exits.get(fn, False) or st != "unsat"
+            continue
+        if st == "unsat":
+            if p.get("base"):
+                if out.get((k, "base")) != "unsat":
+                    vacuous.append(name)
+            elif "body reachable" in name:
+                continue
+            else:
+                vacuous.append(name)
+    for fn, ok in exits.items():
+        if not ok:
+            vacuous.append(fn + "::no normal exit is reachable under the contract")
+    return vacuous
+
+
 def discharge(obligations, timeout_s=10, jobs=None, progress=None):
     """obligations: list of engine.Obligation -> (list of result dicts (same order), smt2 texts).
 
